@@ -22,8 +22,9 @@ type Env struct {
 	local   func(name string) (TV, bool)
 	clause  *Clause
 	depth   int
-	side    *[]string // ground instances of background axioms needed by the evaluated term
-	strong  bool      // position where the formula is used as a hypothesis (side facts are conjoined)
+	side    *[]string       // ground instances of background axioms needed by the evaluated term
+	strong  bool            // position where the formula is used as a hypothesis (side facts are conjoined)
+	bound   map[string]bool // names bound by quantifiers / spec-function parameters (shadow program variables)
 }
 
 func (e *Env) flip() *Env {
@@ -59,6 +60,11 @@ func (e *Env) bind(name string, tv TV) *Env {
 		n.vars[k] = v
 	}
 	n.vars[name] = tv
+	n.bound = make(map[string]bool, len(e.bound)+1)
+	for k := range e.bound {
+		n.bound[k] = true
+	}
+	n.bound[name] = true
 	return &n
 }
 
@@ -392,6 +398,12 @@ func (e *Env) ident(name string) TV {
 		return TV{T: "false", Ty: boolT}
 	case "nil":
 		return TV{IsNil: true}
+	}
+	if _, isParam := e.vars[name]; isParam && !e.bound[name] && e.local != nil && !strings.HasPrefix(name, "$") && name != "self" && name != "recv" && !strings.HasPrefix(name, "arg") && !strings.HasPrefix(name, "result") {
+		// a parameter that the function reassigns: inside a loop its current value is the loop's merge value
+		if tv, ok := e.local(name); ok {
+			return tv
+		}
 	}
 	if tv, ok := e.vars[name]; ok {
 		return tv
